@@ -81,7 +81,7 @@ func c01Scenarios() []c01Scenario {
 		{name: "client/full", side: clientSide, ops: c01FullAlphabet(clientSide), depthQ: 4, depthT: 5},
 		{name: "server/full", side: serverSide, ops: c01FullAlphabet(serverSide), depthQ: 4, depthT: 5},
 		// two client streams starving each other on both windows
-		{name: "client/windows2", side: clientSide, pre: o2, depthQ: 6, depthT: 8, ops: []c01Op{
+		{name: "client/windows2", side: clientSide, pre: o2, depthQ: 5, depthT: 8, ops: []c01Op{
 			c01OpData(1, 16390, false), c01OpData(1, 40000, true), c01OpData(3, 1, false), c01OpData(3, 40000, false), c01OpEnd(3),
 			c01OpWUConn(1), c01OpWUConn(65535), c01OpWUStr(1, 1), c01OpWUStr(1, 16384), c01OpWUStr(3, 65535),
 			c01OpSettings(0, 0), c01OpSettings(1, 0), c01OpSettings(65535, 0), c01OpSettings(65535, 1), c01OpSettings(1<<20, 0), c01OpSettings(1<<20, 1),
@@ -112,7 +112,7 @@ func c01Scenarios() []c01Scenario {
 			c01OpOpen(), c01OpOpenBig(), c01OpDataS(1, 16390), c01OpDataS(3, 9), c01OpTrailers(1, true), c01OpTrailers(3, false), c01OpAbort(true), c01OpSettings(1, 0), c01OpSettings(1<<20, 0),
 			c01OpGoAway(), c01OpIdle(), c01OpTick()}},
 		// server: trailers queued behind window-blocked data, cancel while queued, draining
-		{name: "server/trailers2", side: serverSide, pre: o2, depthQ: 6, depthT: 8, ops: []c01Op{
+		{name: "server/trailers2", side: serverSide, pre: o2, depthQ: 5, depthT: 8, ops: []c01Op{
 			c01OpDataS(1, 16390), c01OpDataS(1, 40000), c01OpDataS(3, 9), c01OpDataS(3, 16384),
 			c01OpTrailers(1, false), c01OpTrailers(3, true), c01OpCleanup(1, true), c01OpCleanup(3, false),
 			c01OpWUConn(1), c01OpWUConn(65535), c01OpWUStr(1, 65535), c01OpWUStr(3, 1),
